@@ -12,7 +12,7 @@ package codec
 // the bytes.Reader it wraps show the same content and the cursor is not negative.
 //
 //@ pred validB(b) = b != nil && b.buf != nil
-//@ pred validR(b) = b != nil && b.buf != nil && b.ref == b.buf.src && b.buf.i >= 0
+//@ pred validR(b) = b != nil && b.buf != nil && b.ref == b.buf.src && b.buf.i >= 0 && allocated(b.ref)
 //
 // atHead: the wanted field is the very next field (the case property C02 speaks about: write, then read
 // with the same tag); in that case nothing has to be skipped.
